@@ -26,6 +26,7 @@ import (
 	"strings"
 	"sync"
 	"time"
+	"verif/harness/internal/probeprog"
 
 	seccomp "github.com/elastic/go-seccomp-bpf"
 	"github.com/elastic/go-seccomp-bpf/arch"
@@ -495,6 +496,12 @@ func constsRunProbe(r *runner, target, goarch string, hasTable bool, cmd *exec.C
 		return
 	}
 	r.tag("probe-run:" + target + ":executed")
+	here := map[string]string{} // "<table> <index>" -> program compiled in this process
+	for _, l := range probeprog.Lines() {
+		if pf := strings.SplitN(l, " ", 4); len(pf) == 4 {
+			here[pf[1]+" "+pf[2]] = pf[3]
+		}
+	}
 	for _, l := range strings.Split(strings.TrimSpace(string(out)), "\n") {
 		f := strings.SplitN(l, " ", 2)
 		if len(f) != 2 {
@@ -520,6 +527,19 @@ func constsRunProbe(r *runner, target, goarch string, hasTable bool, cmd *exec.C
 						FailingInput: fmt.Sprintf("on %s arch.GetInfo(%q) answers %s, on %s/%s it answers %s: the answer for a non-empty name must not depend on the build target",
 							target, nf[0], nf[1], runtime.GOOS, runtime.GOARCH, want)})
 				}
+			}
+		case "program":
+			pf := strings.SplitN(f[1], " ", 3)
+			if len(pf) != 3 || os.Getenv("VERIF_PID") == "C12" {
+				continue // same program on every target is C19's clause; the tables (C12) are not involved
+			}
+			req = "K probe-run " + target + " program " + pf[0] + " " + pf[1]
+			r.count(req, true)
+			r.tag("probe-run:" + target + ":program-compared")
+			if want, ok := here[pf[0]+" "+pf[1]]; ok && want != pf[2] {
+				r.mismatch(Mismatch{Case: "probe-run:program", Request: req, Go: pf[2], Model: want, Key: "consts:probe-run:" + target + ":program:" + pf[0] + ":" + pf[1],
+					FailingInput: fmt.Sprintf("fixed policy #%s compiled for the %s table (verif hook VerifSetArch) gives on %s the program\n  %s\nand on %s/%s the program\n  %s\n(the policies are in harness/internal/probeprog): a policy must compile to the same program wherever it is compiled for a given table",
+						pf[1], pf[0], target, pf[2], runtime.GOOS, runtime.GOARCH, want)})
 			}
 		case "getinfo":
 			r.count(req, true)
